@@ -1064,12 +1064,12 @@ def _k_nul(family, case, disc):
 # --------------------------------------------------------------------- families
 
 FAMILIES = [
-    Family("field", evaluate, strategy=st_field_case, n_quick=130, n_thorough=1500, shards_quick=6,
+    Family("field", evaluate, strategy=st_field_case, n_quick=260, n_thorough=1500, shards_quick=6,
            shards_thorough=16, required_labels=["kind=series", "kind=column", "kind=index", "chain=2", "chain=3",
                                                 "nullable", "unique", "arg-none", "literal-metachar",
                                                 "check=ew_gt", "check=vec_ge", "check=strat_le", "check=ext_ge",
                                                 "model=sat", "model=unsat", "clean", "free"]),
-    Family("frame", evaluate, strategy=st_frame_case, n_quick=50, n_thorough=800, shards_quick=6,
+    Family("frame", evaluate, strategy=st_frame_case, n_quick=100, n_thorough=800, shards_quick=6,
            shards_thorough=16, required_labels=["kind=dataframe", "kind=multiindex", "regex-column", "index=multi",
                                                 "index=single", "joint-unique", "frame-checks",
                                                 "frame+column-checks", "model=sat"]),
